@@ -17,6 +17,7 @@ def Term.noFlat : Term V → Bool
   | .index _ t => t.noFlat
   | .call _ _ t => t.noFlat
   | .flatten _ _ => false
+  | .concat _ _ => false
 
 def Terms.noFlat : List (Term V) → Bool
   | [] => true
@@ -89,6 +90,8 @@ theorem term_sound : ∀ (t : Term V), t.noFlat = true → ∀ (β β' : Bnd V) 
     exact ⟨this.1, by simp [termVal, this.2]⟩
   | flatten id t _ =>
     intro hf; simp [Term.noFlat] at hf
+  | concat id t _ =>
+    intro hf; simp [Term.noFlat] at hf
 
 /-- Outputs of term evaluation keep every bound value inside its domain. -/
 theorem term_bok : ∀ (t : Term V), t.noFlat = true → ∀ (β β' : Bnd V) (a : V),
@@ -120,6 +123,7 @@ theorem term_bok : ∀ (t : Term V), t.noFlat = true → ∀ (β β' : Bnd V) (a
     simp only [evalTerm, List.mem_map] at h
     obtain ⟨p, hp, he⟩ := h; cases he; exact ih hf β p.1 p.2 hb hp
   | flatten id t _ => intro hf; simp [Term.noFlat] at hf
+  | concat id t _ => intro hf; simp [Term.noFlat] at hf
 
 /-- Completeness of term evaluation: every assignment that extends the input binding and keeps the
     term's variables inside their domains extends one of the outputs. -/
@@ -151,6 +155,7 @@ theorem term_complete : ∀ (t : Term V), t.noFlat = true → ∀ (β : Bnd V) (
     obtain ⟨p, hp, he⟩ := ih hf β α hα hd
     exact ⟨(p.1, W.call m args p.2), by simp only [evalTerm, List.mem_map]; exact ⟨p, hp, rfl⟩, he⟩
   | flatten id t _ => intro hf; simp [Term.noFlat] at hf
+  | concat id t _ => intro hf; simp [Term.noFlat] at hf
 
 /-- A term all of whose variables are bound evaluates to exactly one output: the unchanged binding
     with the term's value. -/
@@ -168,6 +173,7 @@ theorem term_closed : ∀ (t : Term V), t.noFlat = true → ∀ (β : Bnd V) (α
   | index k t ih => intro hf β α hα hb; simp [evalTerm, termVal, ih hf β α hα hb]
   | call m args t ih => intro hf β α hα hb; simp [evalTerm, termVal, ih hf β α hα hb]
   | flatten id t _ => intro hf; simp [Term.noFlat] at hf
+  | concat id t _ => intro hf; simp [Term.noFlat] at hf
 
 /-- Same, with the agreement only required on the variables of the term. -/
 theorem term_closed_on : ∀ (t : Term V), t.noFlat = true → ∀ (β : Bnd V) (α : Asg V),
@@ -183,6 +189,7 @@ theorem term_closed_on : ∀ (t : Term V), t.noFlat = true → ∀ (β : Bnd V) 
   | index k t ih => intro hf β α hb; simp [evalTerm, termVal, ih hf β α hb]
   | call m args t ih => intro hf β α hb; simp [evalTerm, termVal, ih hf β α hb]
   | flatten id t _ => intro hf; simp [Term.noFlat] at hf
+  | concat id t _ => intro hf; simp [Term.noFlat] at hf
 
 /-- The value of a term depends only on the values of its variables. -/
 theorem termVal_congr : ∀ (t : Term V), t.noFlat = true → ∀ (α α' : Asg V),
@@ -195,6 +202,7 @@ theorem termVal_congr : ∀ (t : Term V), t.noFlat = true → ∀ (α α' : Asg 
   | index k t ih => intro hf α α' h; simp [termVal, ih hf α α' h]
   | call m args t ih => intro hf α α' h; simp [termVal, ih hf α α' h]
   | flatten id t _ => intro hf; simp [Term.noFlat] at hf
+  | concat id t _ => intro hf; simp [Term.noFlat] at hf
 
 /-- A single-variable term over an unbound variable enumerates the domain in order. -/
 theorem term_dist (x : VarId) : ∀ (t : Term V), t.noFlat = true → (∀ v ∈ t.vars, v = x) →
@@ -221,6 +229,7 @@ theorem term_dist (x : VarId) : ∀ (t : Term V), t.noFlat = true → (∀ v ∈
     simp only [evalTerm, ih hf hv hne, List.map_map, termVal]
     rfl
   | flatten id t _ => intro hf; simp [Term.noFlat] at hf
+  | concat id t _ => intro hf; simp [Term.noFlat] at hf
 
 end
 
